@@ -356,6 +356,22 @@ def run(ctx):
             pts = {ast.unparse(PR.index_elts(r)[-1]) for r in rd} if rd else set()
             ok = a[:6] == ["dim", "pos", "dist", "direction", "angles_tol", "bandwidth"] and set(a[6:8]) == pts and a[8] == d_ix
         ctx.check(ok, "R08.5", site, "a pair is accumulated into direction d only if dir_test(pair, d) holds, with the kernel's tolerance and bandwidth", "dirtest-guard")
+    # the separated-directions flag must be computed from the very direction vectors (normalised) the kernel receives
+    sep_calls = [n for n in ast.walk(ve) if isinstance(n, ast.Call) and getattr(n.func, "id", "") == "_separate_dirs_test"]
+    kcalls = [n for n in ast.walk(ve) if isinstance(n, ast.Call) and getattr(n.func, "id", "") == "_directional"]
+    ok = len(sep_calls) == 1 and len(kcalls) == 1 and sep_calls[0].args and ast.unparse(sep_calls[0].args[0]) == "direction" and len(kcalls[0].args) > 3 and ast.unparse(kcalls[0].args[3]) == "direction"
+    if ok:
+        d1 = small.last_def_before(ve, "direction", sep_calls[0].lineno)
+        d2 = small.last_def_before(ve, "direction", kcalls[0].lineno)
+        norm = [n for n in ast.walk(ve) if isinstance(n, ast.Assign) and ast.unparse(n.targets[0]) == "direction" and "norms" in ast.unparse(n.value) and ast.unparse(n.value).startswith(("np.divide(direction", "direction /"))]
+        ok = d1 is not None and d1 is d2 and len(norm) == 1 and d1 is norm[0]
+        t1 = ast.unparse(sep_calls[0].args[1]) if len(sep_calls[0].args) > 1 else "?"
+        t2 = ast.unparse(kcalls[0].args[4]) if len(kcalls[0].args) > 4 else "?"
+        ok = ok and t1 == t2 == "angles_tol"
+    ctx.check(ok, "R08.5", VAR + "::vario_estimate", "the separated-directions test sees the same unit direction vectors and tolerance as the kernel (its arccos of the dot product assumes unit vectors)", "separate-same-dirs")
+    flag = {k.arg: k.value for k in kcalls[0].keywords}.get("separate_dirs") if kcalls else None
+    src_ok = flag is not None and (flag is (sep_calls[0] if sep_calls else None) or (isinstance(flag, ast.Name) and any(isinstance(n, ast.Assign) and ast.unparse(n.targets[0]) == flag.id and n.value is sep_calls[0] for n in ast.walk(ve))))
+    ctx.check(bool(src_ok), "R08.5", VAR + "::vario_estimate", "the kernel's separate_dirs flag is the result of that test", "separate-flag-source")
     dtf = prog.func(EST, "dir_test")
     ret = [s for s in dtf.body if isinstance(s, ast.Return)]
     ok = len(ret) == 1 and isinstance(ret[0].value, ast.BoolOp) and isinstance(ret[0].value.op, ast.And) and sorted(ast.unparse(v) for v in ret[0].value.values) == ["in_angle", "in_band"]
